@@ -171,6 +171,7 @@ class Zoo:
             src.append("    fn default_emp<K: Kont<Self>>(k: K) -> Option<K::Out> { Some(k.call(<Self as FlatDefault>::default_emplacer())) }")
             if sized:
                 src.append("    fn rust_default() -> Option<Value> { Some(<Self as Default>::default().read()) }")
+        src.append("    fn impls_portable() -> bool { (&PortableProbe::<Self>(PhantomData)).impls_portable() }")
         src.append(f"    fn n_children(&self) -> usize {{ {len(fields)} }}")
         arms = " ".join(f"{i} => {{ f(&RefH(&self.{a})); true }}" for i, a in enumerate(acc))
         src.append(f"    fn child(&self, i: u32, f: &mut dyn FnMut(&dyn ShapeDyn)) -> bool {{ match i {{ {arms} _ => false }} }}")
@@ -292,6 +293,7 @@ class Zoo:
             src.append("    fn default_emp<K: Kont<Self>>(k: K) -> Option<K::Out> { Some(k.call(<Self as FlatDefault>::default_emplacer())) }")
             if sized:
                 src.append("    fn rust_default() -> Option<Value> { Some(<Self as Default>::default().read()) }")
+        src.append("    fn impls_portable() -> bool { (&PortableProbe::<Self>(PhantomData)).impls_portable() }")
         arms = " ".join(f"{pat(i, refp, '_b')} => {len(fs)}," for i, (st, fs) in enumerate(variants))
         src.append(f"    fn n_children(&self) -> usize {{ match {scrut} {{ {arms} }} }}")
         arms = []
@@ -542,6 +544,25 @@ def fixed():
     z.struct([U8, flex_vec(flat_vec(BU16, "u8"), "le::U16")], sized=False, portable=True, comment="portable flex tail")
     z.enum([("unit", []), ("named", [p_struct2, flat_vec(p_struct2, "be::U32")])], sized=False, portable=True, tag="u8", comment="portable unsized enum 2")
     z.enum([("unit", []), ("tuple", [flat_vec(U8, "u8")])], sized=False, portable=True, tag="u16", comment="portable unsized enum, u16 tag")
+    # generic definitions declared portable: they implement Portable only for portable arguments.  The first
+    # instantiation of each (which emits the definition) is portable; the native ones must NOT be Portable.
+    def portable_generic(a, b, n):
+        A, B = G(a, "A"), G(b, "B")
+        inst = f"{a.rust}, {b.rust}, {n}"
+        decl = "A: Flat + Default, B: Flat + Default, const N: usize"
+        z.struct([U8, A, G(array(b, n), "[B; N]"), B], portable=True, generic=dict(key="pgs", decl=decl, where="[B; N]: Default", args=inst),
+                 comment="generic portable sized struct, a parameter as the last field")
+        z.enum([("unit", []), ("tuple", [A, B]), ("named", [B, A]), ("tuple", [G(array(b, n), "[B; N]")])], portable=True,
+               generic=dict(key="pge", decl=decl, where="[B; N]: Default", args=inst), comment="generic portable sized enum, parameters as last variant fields")
+        z.struct([A, G(flat_vec(b, "le::U16"), "FlatVec<B, le::U16>")], sized=False, portable=True,
+                 generic=dict(key="pgu", decl=decl, where="[B; N]: Default", args=inst), comment="generic portable unsized struct, vector of a parameter as the tail")
+        z.enum([("unit", []), ("tuple", [B, A]), ("tuple", [A, G(flat_vec(b, "le::U16"), "FlatVec<B, le::U16>")])], sized=False, portable=True,
+               generic=dict(key="pgn", decl=decl, where="[B; N]: Default", args=inst), comment="generic portable unsized enum")
+    portable_generic(LU16, LU32, 2)
+    portable_generic(BU32, U8, 3)
+    portable_generic(LU16, U32, 1)   # native last field: a Flat type, but not a Portable one
+    portable_generic(U16, LU32, 2)   # native first parameter
+    portable_generic(U8, U64, 1)
     z.register(flat_vec(p_struct, "le::U16"))
     z.register(flat_vec(p_enum, "u8"))
     z.register(flex_vec(p_ustruct, "be::U16"))
